@@ -315,27 +315,158 @@ def result_fingerprint(r, depth=0):
     return {"text": mask(str(r))[:300]}
 
 
+class _Captured(Exception):
+    pass
+
+
+class _Anything:
+    """stand-in for pytest inside a test module that is only executed to harvest argument values"""
+
+    def __init__(self, name="pytest"):
+        self._name = name
+
+    def __getattr__(self, item):
+        if item.startswith("__"):
+            raise AttributeError(item)
+        return _Anything(f"{self._name}.{item}")
+
+    def __call__(self, *a, **k):
+        if self._name.endswith(".fixture") or ".mark." in self._name or self._name.endswith(".mark"):
+            if len(a) == 1 and callable(a[0]) and not k:
+                return a[0]                      # @fixture without parentheses
+            return lambda f: f                   # @fixture(name=...), @mark.parametrize(...)
+        return self
+
+    def __enter__(self):
+        return self
+
+    def __exit__(self, et, ev, tb):
+        return et is not None and not issubclass(et, _Captured)      # `with raises(...)`: swallow, but let the capture through
+
+    def __iter__(self):
+        return iter(())
+
+
+def test_file_of(mod):
+    import symplyphysics
+    root = os.path.dirname(os.path.dirname(os.path.abspath(symplyphysics.__file__)))
+    parts = mod.__name__.split(".")[1:]
+    if parts[0] == "laws":
+        parts = parts[1:]
+    return os.path.join(root, "test", *parts[:-1], parts[-1] + "_test.py")
+
+
+def harvest_test_arguments(mod, names):
+    """The arguments /repo's own test-suite passes to each calculate_* function (first call found, test functions in source order):
+    the test module's source is executed with pytest replaced by a stand-in and the calculate_* functions replaced by recorders that
+    stop the test at the call.  Gives realistic sequence / matrix / vector / callable arguments that cannot be synthesised from the
+    validate_input specification alone."""
+    import ast
+    import types
+    path = test_file_of(mod)
+    if not os.path.exists(path):
+        return {}
+    src = open(path, encoding="utf-8").read()
+    tree = ast.parse(src)
+    fixtures = {}          # fixture name -> function name
+    tests = []
+    for node in tree.body:
+        if not isinstance(node, ast.FunctionDef):
+            continue
+        fx = None
+        for dec in node.decorator_list:
+            d = dec.func if isinstance(dec, ast.Call) else dec
+            dn = d.attr if isinstance(d, ast.Attribute) else getattr(d, "id", "")
+            if dn == "fixture":
+                fx = node.name
+                if isinstance(dec, ast.Call):
+                    for kw in dec.keywords:
+                        if kw.arg == "name" and isinstance(kw.value, ast.Constant):
+                            fx = kw.value.value
+        if fx is not None:
+            fixtures[fx] = node.name
+        elif node.name.startswith("test_"):
+            tests.append(node.name)
+    captured = {}
+    originals = {n: getattr(mod, n) for n in names}
+
+    def recorder(n):
+        def rec(*a, **k):
+            if n not in captured:
+                captured[n] = (a, k)
+            raise _Captured()
+        return rec
+    saved_pytest = sys.modules.get("pytest")
+    stub = types.ModuleType("pytest")
+    stub.__getattr__ = lambda item: getattr(_Anything(), item)          # type: ignore[attr-defined]
+    try:
+        for n in names:
+            setattr(mod, n, recorder(n))
+        sys.modules["pytest"] = stub
+        ns = {"__name__": "c03_harvest", "__file__": path}
+        with _time_limit(20):
+            exec(compile(tree, path, "exec"), ns)  # pylint: disable=exec-used
+
+            def resolve(fname, depth=0):
+                f = ns[fname]
+                kw = {}
+                for pn in inspect.signature(f).parameters:
+                    if pn in fixtures and depth < 4:
+                        kw[pn] = resolve(fixtures[pn], depth + 1)
+                return f(**kw)
+            for tn in tests:
+                if len(captured) == len(names):
+                    break
+                try:
+                    resolve(tn)
+                except _Captured:
+                    pass
+                except BaseException:  # pylint: disable=broad-except
+                    pass
+    except BaseException:  # pylint: disable=broad-except
+        pass
+    finally:
+        for n, f in originals.items():
+            setattr(mod, n, f)
+        if saved_pytest is not None:
+            sys.modules["pytest"] = saved_pytest
+        else:
+            sys.modules.pop("pytest", None)
+    return captured
+
+
 def run_calcs(mod, argseed, budget_s):
     out = {}
-    for name, fn in list(vars(mod).items()):
-        if not (name.startswith("calculate_") and callable(fn) and getattr(fn, "__module__", None) == mod.__name__):
-            continue
+    names = [name for name, fn in list(vars(mod).items())
+        if name.startswith("calculate_") and callable(fn) and getattr(fn, "__module__", None) == mod.__name__]
+    try:
+        harvested = harvest_test_arguments(mod, names) if names else {}
+    except BaseException:  # pylint: disable=broad-except
+        harvested = {}
+    for name in names:
+        fn = getattr(mod, name)
         fq = f"{mod.__name__}.{name}"
         t0 = time.time()
-        try:
-            kwargs = fixed_arguments(fn, fq, argseed)
-        except Exception as e:  # pylint: disable=broad-except
-            out[name] = {"argerr": f"{type(e).__name__}: {mask(str(e))[:200]}"}
-            continue
+        if name in harvested:
+            args, kwargs = harvested[name]
+            src = "test-suite"
+        else:
+            args, src = (), "synthesised"
+            try:
+                kwargs = fixed_arguments(fn, fq, argseed)
+            except Exception as e:  # pylint: disable=broad-except
+                out[name] = {"argerr": f"{type(e).__name__}: {mask(str(e))[:200]}"}
+                continue
         try:
             with _time_limit(budget_s):
-                res = fn(**kwargs)
+                res = fn(*args, **kwargs)
             out[name] = {"r": result_fingerprint(res)}
         except _Timeout:
             out[name] = {"timeout": budget_s}
         except Exception as e:  # pylint: disable=broad-except
             out[name] = {"exc": f"{type(e).__name__}: {mask(str(e))[:200]}"}
         out[name]["s"] = round(time.time() - t0, 2)
+        out[name]["args"] = src
     return out
 
 
